@@ -1012,8 +1012,15 @@ impl<T: Transport, Env: UtpEnvironment> VirtualSocket<T, Env> {
         );
 
         while remaining > 0 && remote_window_remaining > 0 {
-            let ss = self.segment_sizes.next_segment_size();
+            let mut ss = self.segment_sizes.next_segment_size();
             let min_ss = self.segment_sizes.mss();
+            // An MTU probe that is larger than the congestion window can't be sent, and nothing
+            // is segmented behind a probe: the connection would stall until the retransmission
+            // timer fires. Send an ordinary segment now and probe with the next one.
+            if ss > min_ss && ss as usize > self.congestion_controller.window() {
+                ss = min_ss;
+                self.segment_sizes.disarm_cooldown();
+            }
             let max_payload_size = (ss as usize).min(remote_window_remaining);
             let payload_size = max_payload_size.min(remaining);
 
